@@ -97,6 +97,9 @@ pub fn interpret(ch: &Choice, _st: &mut Stats) -> Option<Case> {
       }
       1 => files.push((format!("{dir}notes{i}.txt"), format!("foo(1); // not a source file\n{body}\n"))),
       2 => files.push((format!("{dir}f{i}.js"), body)), // no trailing newline
+      // a byte order mark in front of the text (with and without a comment before the code)
+      4 => files.push((format!("{dir}f{i}.js"), format!("\u{feff}{body}\n"))),
+      5 if i % 2 == 1 => files.push((format!("{dir}f{i}.js"), format!("\u{feff}// é\n{body}"))),
       _ => files.push((format!("{dir}f{i}.js"), format!("{body}\n"))),
     }
   }
@@ -339,7 +342,7 @@ pub fn check(case: &Case, st: &mut Stats) -> CheckResult {
 pub fn run(cfg: &RunCfg) -> i32 {
   let mut report = Report::new(
     cfg,
-    "case = project of 1-11 files (JavaScript with nested / multi-line calls and multi-byte text, HTML hosts with a <script>, non-source files) and either `run -p -r -l js -U` (5 pattern/rewrite pairs incl. nested and widening ones) or `scan -U` with 1-4 rules from 7 templates (nested matches, two rules on one node, expandEnd reaching the next separator, statement deletion, a host-language HTML rule, a rule without fix) in 1-2 multi-document rule files with generated ids; the command is repeated 1-3 times. Oracle O-update: the same command with --json=stream on the files as they are; edits ordered as the tool visits them (node start asc, outer first, rule id), overlapping ones dropped, spliced per file; compared byte for byte with the files after -U, plus the `Applied N changes` count. evaluations = -U invocations. Non-trivial = distinct case with a file with >= 2 accepted edits, a dropped overlapping edit, or a multi-document file.",
+    "case = project of 1-11 files (JavaScript with nested / multi-line calls and multi-byte text, some led by a byte order mark, HTML hosts with a <script>, non-source files) and either `run -p -r -l js -U` (5 pattern/rewrite pairs incl. nested and widening ones) or `scan -U` with 1-4 rules from 7 templates (nested matches, two rules on one node, expandEnd reaching the next separator, statement deletion, a host-language HTML rule, a rule without fix) in 1-2 multi-document rule files with generated ids; the command is repeated 1-3 times. Oracle O-update: the same command with --json=stream on the files as they are; edits ordered as the tool visits them (node start asc, outer first, rule id), overlapping ones dropped, spliced per file; compared byte for byte with the files after -U, plus the `Applied N changes` count. evaluations = -U invocations. Non-trivial = distinct case with a file with >= 2 accepted edits, a dropped overlapping edit, or a multi-document file.",
   );
   report.assume("ties between different nodes with identical ranges are not generated by the rule templates");
   let known = Known::load(&cfg.prop);
